@@ -765,7 +765,8 @@ def eval_input(bs, parse=False):
 THEOREMS = ["C05_loc_spec", "C05_loc_one_based", "C05_loc_monotone", "C05_loc_strict", "C05_loc_injective", "C05_loc_injective_on_line", "C05_loc_inside",
             "C05_loc_exact_ascii", "C05_loc_exact_chars", "C05_loc_clamped", "C05_resume_point_form_is_to_loc", "C05_get_location_agrees", "C05_spans_ordered_loc",
             "C05_spans_one_based_strict", "C05_error_at_offending_token", "C05_error_at_plain_token", "C05_error_beyond_tokens",
-            "C05_split_spans_exact", "C05_split_positions_ordered", "C05_split_positions_inside", "C05_split_positions_shared_refuted"]
+            "C05_split_spans_exact", "C05_split_positions_ordered", "C05_split_positions_inside", "C05_split_positions_shared_refuted",
+            "C05_tokenizer_error_offset", "C05_tokenizer_error_location_inside"]
 
 
 def run(tier):
@@ -775,7 +776,9 @@ def run(tier):
     try:
         with common.Lock():
             common.stage_harness()
-            ok_inst, ok_props, _, logs = common.coq_stage(rp, ["theories/Proofs/LocP.vo", "theories/Proofs/LocCostP.vo"], "theories/Props/C05.v",
+            import gen04   # the tokenizer model (error-location theorems, Proofs/LexErrLocP.v) is built over the lexical tables of this tree
+            gen04.emit_lextables(gen04.stage_lextables())
+            ok_inst, ok_props, _, logs = common.coq_stage(rp, ["theories/Proofs/LocP.vo", "theories/Proofs/LocCostP.vo", "theories/Proofs/LexErrLocP.vo"], "theories/Props/C05.v",
                                                           ["Props.C05." + t for t in THEOREMS])
     except common.StageError as e:
         return common.stage_fail(rp, e)
